@@ -107,13 +107,16 @@ ExpoZero(C, b) == SumF([j \in 1..NV(C) |-> IF Val(C, j) = 0 THEN b.cnt[j] ELSE 0
 (*          instruments a set that is not observed in a cycle is forgotten)       *)
 (*   dstart logical start of the delta reader's next interval                     *)
 (*   out    what the two readers report at the last collection point              *)
-NoPt(C) == [p |-> FALSE, o |-> FALSE, v |-> 0, bag |-> EmptyBag(C), bag2 |-> EmptyBag(C)]
+(*   prevF  the set was observed in the preceding cycle by a callback that then       *)
+(*          returned an error (see DoCollectF)                                         *)
+NoPt(C) == [p |-> FALSE, o |-> FALSE, v |-> 0, v2 |-> 0, bag |-> EmptyBag(C), bag2 |-> EmptyBag(C)]
 NoOut(C) == [start |-> 0, time |-> 0, pts |-> [a \in Attrs(C) |-> NoPt(C)]]
 
 InitState(C) ==
   [k |-> 0, reg |-> {0},
    cur |-> [a \in Attrs(C) |-> EmptyBag(C)],
    prev |-> [a \in Attrs(C) |-> 0],
+   prevF |-> [a \in Attrs(C) |-> FALSE],
    tot |-> [a \in Attrs(C) |-> EmptyBag(C)],
    totS |-> [a \in Attrs(C) |-> EmptyBag(C)],
    runV |-> [a \in Attrs(C) |-> 0],
@@ -147,14 +150,22 @@ BagValue(C, b) == IF C.agg = "last" THEN (IF b.last = 0 THEN 0 ELSE Val(C, b.las
 (* DELTA reader: exactly the sets measured / observed in the cycle; a precomputed *)
 (* (asynchronous) sum reports observed - observed in the preceding cycle (0 if    *)
 (* it was not observed then); everything else reports the aggregate of the cycle. *)
-DeltaPt(C, st, obs, a) ==
-  LET cb == CycleBag(C, st, obs, a) IN
-  IF cb.last = 0 THEN NoPt(C)
-  ELSE [p |-> TRUE, o |-> FALSE,
-        v |-> IF Async(C) /\ C.agg = "sum"
-              THEN Val(C, obs[a]) - (IF st.prev[a] # 0 THEN Val(C, st.prev[a]) ELSE 0)
-              ELSE BagValue(C, cb),
-        bag |-> cb, bag2 |-> cb]
+(* CALLBACK OUTCOMES.  obs holds what the callbacks actually observed; of[a] = the    *)
+(* set was observed by a callback that afterwards returned an error.  The API docs   *)
+(* say nothing about such observations: the point is optional (o) in that cycle; if   *)
+(* reported it is exact.  In the next cycle the delta is taken against the value       *)
+(* observed then (v) or, for an implementation that dropped it, against zero (v2).     *)
+(* Anything else -- in particular leftovers of an earlier cycle ADDED to a new         *)
+(* observation -- is never admitted.                                                   *)
+DeltaPt(C, st, obs, of, a) ==
+  LET cb == CycleBag(C, st, obs, a)
+      pv == IF Async(C) /\ C.agg = "sum"
+            THEN Val(C, obs[a]) - (IF st.prev[a] # 0 THEN Val(C, st.prev[a]) ELSE 0)
+            ELSE BagValue(C, cb)
+  IN IF cb.last = 0 THEN NoPt(C)
+     ELSE [p |-> TRUE, o |-> (Async(C) /\ of[a]), v |-> pv,
+           v2 |-> IF Async(C) /\ C.agg = "sum" /\ st.prevF[a] THEN Val(C, obs[a]) ELSE pv,
+           bag |-> cb, bag2 |-> cb]
 
 (* CUMULATIVE reader.  Synchronous: the aggregate of everything measured so far;  *)
 (* a set measured in this cycle must be reported, a set measured only earlier may *)
@@ -162,26 +173,30 @@ DeltaPt(C, st, obs, a) ==
 (* observed in this cycle; sum / last value = the observed value; a histogram of  *)
 (* observations = everything observed so far, or since the set reappeared (the    *)
 (* statement leaves that choice: bag / bag2).                                     *)
-CumPt(C, st, obs, a) ==
+CumPt(C, st, obs, of, a) ==
   LET cb == CycleBag(C, st, obs, a)
       t1 == BagUnion(st.tot[a], cb)
       t2 == BagUnion(st.totS[a], cb)
   IN IF Async(C)
      THEN (IF cb.last = 0 THEN NoPt(C)
-           ELSE [p |-> TRUE, o |-> FALSE,
+           ELSE [p |-> TRUE, o |-> of[a],
                  v |-> IF C.agg \in {"sum", "last"} THEN Val(C, obs[a]) ELSE BagS(C, t1),
+                 v2 |-> IF C.agg \in {"sum", "last"} THEN Val(C, obs[a]) ELSE BagS(C, t1),
                  bag |-> t1, bag2 |-> t2])
      ELSE (IF t1.last = 0 THEN NoPt(C)
-           ELSE [p |-> TRUE, o |-> (cb.last = 0), v |-> BagValue(C, t1), bag |-> t1, bag2 |-> t1])
+           ELSE [p |-> TRUE, o |-> (cb.last = 0), v |-> BagValue(C, t1), v2 |-> BagValue(C, t1), bag |-> t1, bag2 |-> t1])
 
-DoCollect(C, st, obs) ==
-  LET dp == [a \in Attrs(C) |-> DeltaPt(C, st, obs, a)]
-      cp == [a \in Attrs(C) |-> CumPt(C, st, obs, a)]
+NoFail(C) == [a \in Attrs(C) |-> FALSE]
+
+DoCollectF(C, st, obs, of) ==
+  LET dp == [a \in Attrs(C) |-> DeltaPt(C, st, obs, of, a)]
+      cp == [a \in Attrs(C) |-> CumPt(C, st, obs, of, a)]
       cyc == [a \in Attrs(C) |-> CycleBag(C, st, obs, a)]
       forget(a) == Async(C) /\ cyc[a].last = 0
   IN [k |-> st.k + 1, reg |-> st.reg,
       cur |-> [a \in Attrs(C) |-> EmptyBag(C)],
       prev |-> [a \in Attrs(C) |-> IF Observed(C, st, obs, a) THEN obs[a] ELSE 0],
+      prevF |-> [a \in Attrs(C) |-> Observed(C, st, obs, a) /\ of[a]],
       tot |-> [a \in Attrs(C) |-> BagUnion(st.tot[a], cyc[a])],
       totS |-> [a \in Attrs(C) |-> IF forget(a) THEN EmptyBag(C) ELSE BagUnion(st.totS[a], cyc[a])],
       runV |-> [a \in Attrs(C) |-> IF forget(a) THEN 0 ELSE st.runV[a] + (IF dp[a].p THEN dp[a].v ELSE 0)],
@@ -189,6 +204,8 @@ DoCollect(C, st, obs) ==
       dstart |-> st.k + 1,
       out |-> [d |-> [start |-> st.dstart, time |-> st.k + 1, pts |-> dp],
                c |-> [start |-> 0, time |-> st.k + 1, pts |-> cp]]]
+
+DoCollect(C, st, obs) == DoCollectF(C, st, obs, NoFail(C))
 
 -----------------------------------------------------------------------------
 (* The statement, as predicates over (state before, state after) of a collection  *)
